@@ -476,7 +476,7 @@ class Alg:
         # dropped only for atoms known to be non-negative (square roots, positive constants)
         if len(p.t) == 1:
             (m, c), = p.t.items()
-            if c > 0 and all(pw % 2 == 0 for _, pw in m):
+            if c > 0 and m != () and all(pw % 2 == 0 for _, pw in m):
                 cr = self.sqrt(self.const(c))
                 if self.is_const(cr):
                     out = self.const(self.const_of(cr))
